@@ -107,6 +107,10 @@ def _unit_variants(f, path):
     return [v["name"] for v in ad["variants"] if not v["fields"]]
 
 
+class NotComparable(Exception):
+    """a value holds something the evaluator left unevaluated: comparing it would compare artefacts, not values"""
+
+
 def _norm(pe, v, depth=0):
     """a heap-independent, comparable rendering of an abstract value"""
     if v == TOP:
@@ -123,7 +127,10 @@ def _norm(pe, v, depth=0):
     if k == "string":
         if all(isinstance(x, int) for x in v[1]):
             return "".join(chr(x) for x in v[1])
-        return ("string", v[1])
+        txt = peval._pystr(pe, None, v)
+        if txt is not None:
+            return txt
+        raise NotComparable("a string with parts the evaluator could not render: %s" % str([x for x in v[1] if not isinstance(x, int)][:1])[:120])
     if k == "str":
         return v[1]
     if k in ("fn", "fnaddr"):
@@ -232,6 +239,117 @@ def _native_calls(f, eff):
     return calls, skip
 
 
+def _one_program(f, prog, inst, native, und, bad):
+    pe = peval.PEval(f, max_steps=5_000_000)
+    r = pe.call(OPTS + "::new", [])
+    if r.kind == "diverge":
+        bad("SvgOptions::new/panics", inst, "no panic", r.why)
+        return False
+    if r.kind != "ret" or r.value == TOP:
+        und.setdefault("SvgOptions::new does not fold: %s" % r.why, []).append(inst)
+        return False
+    opts = r.value
+    ok = True
+    for name, val in prog:
+        fn = f.fn(OPTS + "::" + name)
+        if fn is None:
+            und.setdefault("setter %s not found" % name, []).append(inst)
+            ok = False
+            break
+        tys = fn.raw.get("inputs") or []
+        if name == "image_size" and len(tys) == 3:
+            args = [_mkarg(f, pe, tys[1], val[0]), _mkarg(f, pe, tys[2], val[1])]
+        elif len(tys) == 2:
+            args = [_mkarg(f, pe, tys[1], val)]
+        else:
+            args = [None]
+        if tys[:1] != [OPTS] or any(a is None for a in args):
+            und.setdefault("setter %s has a signature the rule cannot call: %s" % (name, tys), []).append(inst)
+            ok = False
+            break
+        r = pe.call(OPTS + "::" + name, [opts] + args)
+        if r.kind == "diverge":
+            bad("%s/panics" % name, inst, "no panic for any value", r.why)
+            ok = False
+            break
+        if r.kind != "ret" or r.value == TOP:
+            und.setdefault("setter %s does not fold: %s" % (name, r.why), []).append(inst)
+            ok = False
+            break
+        opts = r.value
+    if not ok:
+        return False
+    eff = _effective(prog)
+    calls, skip = _native_calls(f, eff)
+    nb, why = native.build(pe, calls)
+    if nb is None:
+        und.setdefault(why, []).append(inst)
+        return False
+    want = native.normal(pe, nb)
+    want_ecl = ("Option", "Some", (("ECL", eff["ecl"][1], ()),)) if "ecl" in eff else ("Option", "None", ())
+    want_ver = ("Option", "Some", (("Version", eff["version"][1], ()),)) if "version" in eff else ("Option", "None", ())
+    decided = True
+    for content in CONTENTS:
+        for encodable in (True, False):
+            rec = {}
+
+            def qnew(pe_, st, args, t, rec=rec, encodable=encodable):
+                rec["new"] = [_deref_all(pe_, st, a) for a in args]
+                if encodable:
+                    return ("adt", RESULT, 0, "Ok", (("tok", "QR"),))
+                return ("adt", RESULT, 1, "Err", (("tok", "QRCodeError"),))
+
+            def tostr(pe_, st, args, t, rec=rec):
+                rec.setdefault("builders", []).append(_deref_all(pe_, st, args[0]))
+                rec["qr"] = _deref_all(pe_, st, args[1])
+                return ("string", (("tok", "SVG"),))
+            pe.summaries["qr::QRCode::new"] = qnew
+            pe.summaries[SVGB + "::to_str"] = tostr
+            pe.memo = {}
+            r = pe.call(W + "qr_svg", [("ref", ("const", ("str", content))), opts])
+            what = "qr_svg(%s content)" % ("encodable" if encodable else "unencodable")
+            if r.kind == "diverge":
+                bad("qr_svg/panics", inst, "no panic", r.why)
+                continue
+            if r.kind != "ret" or r.value == TOP:
+                und.setdefault("qr_svg does not fold: %s" % r.why, []).append(inst)
+                decided = False
+                continue
+            if len(rec.get("new", [])) != 5:
+                bad("qr_svg/QRCode::new", inst, "one call of QRCode::new(content, ecl, version, mode, mask)", _show(rec.get("new")))
+                continue
+            a = [_norm(pe, x) for x in rec["new"]]
+            exp_bytes = ("seq", tuple(content.encode()))
+            if a[0] != exp_bytes:
+                bad("qr_svg/content", inst, "content.as_bytes()", _show(a[0]))
+            if a[1] != want_ecl:
+                bad("qr_svg/ecl", inst, _show(want_ecl), _show(a[1]))
+            if a[2] != want_ver:
+                bad("qr_svg/version", inst, _show(want_ver), _show(a[2]))
+            if a[3] != ("Option", "None", ()) or a[4] != ("Option", "None", ()):
+                bad("qr_svg/mode-mask", inst, "mode and mask automatic (None)", _show(a[3:]))
+            if not encodable:
+                if _norm(pe, r.value) != "":
+                    bad("qr_svg/failure-not-empty", inst, "empty string when the content cannot be encoded", _show(_norm(pe, r.value)))
+                continue
+            if r.value != ("string", (("tok", "SVG"),)) or len(rec.get("builders", [])) != 1 or rec.get("qr") != ("tok", "QR"):
+                bad("qr_svg/not-native-render", inst, "exactly the string SvgBuilder::to_str returns for the built symbol",
+                    _show((_norm(pe, r.value), len(rec.get("builders", [])))))
+                continue
+            b = rec["builders"][0]
+            if b == TOP or b[0] != "adt" or b[1] != SVGB:
+                und.setdefault("the builder handed to to_str is not a known value", []).append(inst)
+                decided = False
+                continue
+            got = native.normal(pe, b)
+            for fld in native.fields:
+                if fld in skip:
+                    continue
+                if got.get(fld) != want.get(fld):
+                    bad("qr_svg/builder.%s" % fld, inst, "native: " + _show(want.get(fld)), _show(got.get(fld)))
+    return decided
+
+
 def c17_r6(ctx, f, rid="C17.R6"):
     ctx.rule(rid, "option layer by partial evaluation: for a list of setter programs (well-formed, malformed, partial) no setter and no "
                   "entry point panics, QRCode::new receives content.as_bytes() with the level/version set, and the builder handed to "
@@ -262,114 +380,12 @@ def c17_r6(ctx, f, rid="C17.R6"):
 
     for prog in progs:
         inst = ".".join("%s(%s)" % (n, repr(v)[:24]) for n, v in prog) or "new()"
-        pe = peval.PEval(f, max_steps=5_000_000)
-        r = pe.call(OPTS + "::new", [])
-        if r.kind == "diverge":
-            bad("SvgOptions::new/panics", inst, "no panic", r.why)
-            continue
-        if r.kind != "ret" or r.value == TOP:
-            und.setdefault("SvgOptions::new does not fold: %s" % r.why, []).append(inst)
-            continue
-        opts = r.value
-        ok = True
-        for name, val in prog:
-            fn = f.fn(OPTS + "::" + name)
-            if fn is None:
-                und.setdefault("setter %s not found" % name, []).append(inst)
-                ok = False
-                break
-            tys = fn.raw.get("inputs") or []
-            if name == "image_size" and len(tys) == 3:
-                args = [_mkarg(f, pe, tys[1], val[0]), _mkarg(f, pe, tys[2], val[1])]
-            elif len(tys) == 2:
-                args = [_mkarg(f, pe, tys[1], val)]
-            else:
-                args = [None]
-            if tys[:1] != [OPTS] or any(a is None for a in args):
-                und.setdefault("setter %s has a signature the rule cannot call: %s" % (name, tys), []).append(inst)
-                ok = False
-                break
-            r = pe.call(OPTS + "::" + name, [opts] + args)
-            if r.kind == "diverge":
-                bad("%s/panics" % name, inst, "no panic for any value", r.why)
-                ok = False
-                break
-            if r.kind != "ret" or r.value == TOP:
-                und.setdefault("setter %s does not fold: %s" % (name, r.why), []).append(inst)
-                ok = False
-                break
-            opts = r.value
-        if not ok:
-            continue
-        eff = _effective(prog)
-        calls, skip = _native_calls(f, eff)
-        nb, why = native.build(pe, calls)
-        if nb is None:
-            und.setdefault(why, []).append(inst)
-            continue
-        want = native.normal(pe, nb)
-        want_ecl = ("Option", "Some", (("ECL", eff["ecl"][1], ()),)) if "ecl" in eff else ("Option", "None", ())
-        want_ver = ("Option", "Some", (("Version", eff["version"][1], ()),)) if "version" in eff else ("Option", "None", ())
-        decided = True
-        for content in CONTENTS:
-            for encodable in (True, False):
-                rec = {}
-
-                def qnew(pe_, st, args, t, rec=rec, encodable=encodable):
-                    rec["new"] = [_deref_all(pe_, st, a) for a in args]
-                    if encodable:
-                        return ("adt", RESULT, 0, "Ok", (("tok", "QR"),))
-                    return ("adt", RESULT, 1, "Err", (("tok", "QRCodeError"),))
-
-                def tostr(pe_, st, args, t, rec=rec):
-                    rec.setdefault("builders", []).append(_deref_all(pe_, st, args[0]))
-                    rec["qr"] = _deref_all(pe_, st, args[1])
-                    return ("string", (("tok", "SVG"),))
-                pe.summaries["qr::QRCode::new"] = qnew
-                pe.summaries[SVGB + "::to_str"] = tostr
-                pe.memo = {}
-                r = pe.call(W + "qr_svg", [("ref", ("const", ("str", content))), opts])
-                what = "qr_svg(%s content)" % ("encodable" if encodable else "unencodable")
-                if r.kind == "diverge":
-                    bad("qr_svg/panics", inst, "no panic", r.why)
-                    continue
-                if r.kind != "ret" or r.value == TOP:
-                    und.setdefault("qr_svg does not fold: %s" % r.why, []).append(inst)
-                    decided = False
-                    continue
-                if len(rec.get("new", [])) != 5:
-                    bad("qr_svg/QRCode::new", inst, "one call of QRCode::new(content, ecl, version, mode, mask)", _show(rec.get("new")))
-                    continue
-                a = [_norm(pe, x) for x in rec["new"]]
-                exp_bytes = ("seq", tuple(content.encode()))
-                if a[0] != exp_bytes:
-                    bad("qr_svg/content", inst, "content.as_bytes()", _show(a[0]))
-                if a[1] != want_ecl:
-                    bad("qr_svg/ecl", inst, _show(want_ecl), _show(a[1]))
-                if a[2] != want_ver:
-                    bad("qr_svg/version", inst, _show(want_ver), _show(a[2]))
-                if a[3] != ("Option", "None", ()) or a[4] != ("Option", "None", ()):
-                    bad("qr_svg/mode-mask", inst, "mode and mask automatic (None)", _show(a[3:]))
-                if not encodable:
-                    if _norm(pe, r.value) != "":
-                        bad("qr_svg/failure-not-empty", inst, "empty string when the content cannot be encoded", _show(_norm(pe, r.value)))
-                    continue
-                if r.value != ("string", (("tok", "SVG"),)) or len(rec.get("builders", [])) != 1 or rec.get("qr") != ("tok", "QR"):
-                    bad("qr_svg/not-native-render", inst, "exactly the string SvgBuilder::to_str returns for the built symbol",
-                        _show((_norm(pe, r.value), len(rec.get("builders", [])))))
-                    continue
-                b = rec["builders"][0]
-                if b == TOP or b[0] != "adt" or b[1] != SVGB:
-                    und.setdefault("the builder handed to to_str is not a known value", []).append(inst)
-                    decided = False
-                    continue
-                got = native.normal(pe, b)
-                for fld in native.fields:
-                    if fld in skip:
-                        continue
-                    if got.get(fld) != want.get(fld):
-                        bad("qr_svg/builder.%s" % fld, inst, "native: " + _show(want.get(fld)), _show(got.get(fld)))
-        if decided:
+        try:
+            ok_prog = _one_program(f, prog, inst, native, und, bad)
+        except NotComparable as e:
+            und.setdefault(str(e), []).append(inst)
+            ok_prog = False
+        if ok_prog:
             n_ok += 1
     for key, e in sorted(viol.items()):
         ctx.fail(rid, "%sqr_svg/%s" % (W, key), where_fn(entry), entry.path,
